@@ -67,6 +67,89 @@ print(json.dumps(res))
 '''
 
 
+def boards_overlap(ctx):
+    """the real BootHandler in-process: boards sharing one image file on different partitions, and a board on another
+    image, transfer the same file names at the same time in seeded interleavings; each must receive its own volume's bytes"""
+    import tempfile, warnings, ipaddress
+    from pathlib import Path
+    from nobodd.server import BootHandler
+    from nobodd.config import Board
+    from tftpdrv import Sim
+    from props import c02
+    rng = ctx.rng
+    R = ctx.runner('Fat')
+    import fatspec
+    for rnd in range(6 if ctx.thorough else 2):
+        with tempfile.TemporaryDirectory() as tmp:
+            la, lb = c02.LAYOUTS[rnd % len(c02.LAYOUTS)]
+            pa, va, na = c02.make_disk(rng, tmp, 'A', la)
+            pb, vb, nb = c02.make_disk(rng, tmp, 'B', lb)
+            specs = [fatspec.spec_abs(R, v)[1] for v in (va[0], va[1], vb[0])]
+            serials = [0x1111aaaa, 0x2222bbbb, 0x3333cccc]
+            boards = {serials[0]: Board(serials[0], Path(pa), na[0], None), serials[1]: Board(serials[1], Path(pa), na[1], None),
+                      serials[2]: Board(serials[2], Path(pb), nb[0], None)}
+            images = {}
+            order = list(range(3)) * 2
+            rng.shuffle(order)                      # two transfers per board, started in a random order
+            names = ['config.txt', 'cmdline.txt', 'overlays/README', 'overlays/a long overlay name.dtbo']
+            sim = Sim({}, handler_cls=BootHandler, server_attrs=dict(boards=boards, images=images))
+            try:
+                with warnings.catch_warnings():
+                    warnings.simplefilter('ignore')
+                    live = []
+                    now = 1000
+                    for cid, b in enumerate(order, start=1):
+                        name = rng.choice(names)
+                        want = c02.spec_lookup(specs[b], name.split('/'))['data']
+                        bs = rng.choice([8, 64, 512])
+                        sent, _ = sim.packet(0, cid, b'\0\1%x/%s\0octet\0blksize\0%d\0' % (serials[b], name.encode(), bs), now)
+                        now += 7
+                        if len(sent) != 1 or sent[0][1][:2] != b'\0\6':
+                            ctx.violation('boot.concurrent/request-refused', f'board {serials[b]:x} request for {name} while {len(live)} transfers run: {sent}',
+                                          dict(layouts=[la, lb], order=order))
+                            return
+                        live.append(dict(cid=cid, tid=sent[0][0], board=b, name=name, want=want, bs=bs, got=b'', next=0, done=False))
+                        # let a random running transfer make a little progress in between
+                        for _ in range(rng.randint(0, 3)):
+                            t = rng.choice(live)
+                            if not t['done']:
+                                step_transfer(ctx, sim, t, now, serials, la, lb, order)
+                                now += 3
+                    while any(not t['done'] for t in live):
+                        t = rng.choice([t for t in live if not t['done']])
+                        if not step_transfer(ctx, sim, t, now, serials, la, lb, order):
+                            return
+                        now += 3
+                    for t in live:
+                        ctx.case(('boards', rnd, t['cid'], t['board'], t['name']), True, 'boards-overlap')
+            finally:
+                sim.restore()
+
+
+def step_transfer(ctx, sim, t, now, serials, la, lb, order):
+    sent, _ = sim.packet(t['tid'], t['cid'], b'\0\4' + struct.pack('!H', t['next']), now)
+    if len(sent) != 1 or sent[0][1][:2] != b'\0\3' or struct.unpack('!H', sent[0][1][2:4])[0] != t['next'] + 1:
+        ctx.violation('boot.concurrent/no-data', f'board {serials[t["board"]]:x} {t["name"]}: ACK {t["next"]} answered by {sent}',
+                      dict(layouts=[la, lb], order=order))
+        t['done'] = True
+        return False
+    t['next'] += 1
+    payload = sent[0][1][4:]
+    t['got'] += payload
+    if t['got'] != t['want'][:len(t['got'])]:
+        ctx.violation('boot.concurrent/foreign-bytes',
+                      f'board {serials[t["board"]]:x} asked for {t["name"]} while other boards\' transfers overlap and received bytes that are '
+                      f'not its own volume\'s (block {t["next"]})', dict(layouts=[la, lb], order=order, board=t['board']))
+        t['done'] = True
+        return False
+    if len(payload) < t['bs']:
+        t['done'] = True
+        if t['got'] != t['want']:
+            ctx.violation('boot.concurrent/short', f'board {serials[t["board"]]:x} {t["name"]}: {len(t["got"])} of {len(t["want"])} bytes', {})
+            return False
+    return True
+
+
 def run(ctx, build):
     R = ctx.try_runner('Tftp')
     rng = ctx.rng
@@ -127,6 +210,9 @@ def run(ctx, build):
                 ctx.sample(dict(N=N, stalled=list(stalled), n_events=len(S.events)))
         finally:
             S.close()
+
+    # ---- overlapping transfers for different boards (shared image / different partitions, other image) ---------
+    boards_overlap(ctx)
 
     # ---- real threads, real UDP ---------------------------------------------------------------
     runs = 4 if ctx.thorough else 1
